@@ -114,6 +114,7 @@ extern "C" void harness_run()
   int peerMax = peerMaxV[biased(4, 550)];
   bool peerWantsClientCert = biased(2, 800) == 1;
   bool reconfigure = httpMode && biased(2, 750) == 1; // http: the TLS configuration is set AFTER the client was first used
+  bool warmPlain = httpMode && biased(2, 750) == 1;   // http: a plain http:// request to the same host:port precedes the https:// one
   if (httpMode) { enabled = true; modeSet = true; cfgMin = 0; ciphers = ""; } // HttpClient exposes none of these
   // clock: 0 stays in 2030, 1 = 2036 from the beginning, 2 = 2046 from the beginning, 3 = jumps to 2046 after the transport was started
   int clockMode = (int)biased(4, 750);
@@ -165,10 +166,10 @@ extern "C" void harness_run()
   const std::string effAnchor = anchor == "none" && systemCa ? "ca" : anchor; // for the iora CLIENT; a server has no system fallback
   int year = clockMode == 1 ? 2036 : clockMode >= 2 ? 2046 : 2030;
 
-  sim::notef("role=%s tls-config{enabled=%d mode=%s verifyPeer=%d anchor=%s%s minVersion=%s ciphers='%s' own-cert=%s} requested=%s %s%s peer{%s cert=%s max=%s wantsClientCert=%d} clock=%d(year %d at handshake) api=%s earlySend=%d%s",
+  sim::notef("role=%s tls-config{enabled=%d mode=%s verifyPeer=%d anchor=%s%s minVersion=%s ciphers='%s' own-cert=%s} requested=%s %s%s peer{%s cert=%s max=%s wantsClientCert=%d} clock=%d(year %d at handshake) api=%s earlySend=%d%s%s",
              ioraClient ? "iora-client" : "iora-server", enabled, modeSet ? "set" : "None", verify, anchor.c_str(), systemCa ? "(system store: ca)" : "(system store: empty)", vname(cfgMin), ciphers.c_str(), ownCert.c_str(),
              reqTls ? "TLS" : "plaintext", ioraClient ? "target=" : "", ioraClient ? target.c_str() : "", pkname[peerKind], peerCert.c_str(), vname(peerMax), peerWantsClientCert,
-             clockMode, year, httpMode ? "HttpClient.get" : syncApi ? "connectSync" : "connect", earlySend, reconfigure ? " TLS-CONFIG-SET-AFTER-FIRST-USE" : "");
+             clockMode, year, httpMode ? "HttpClient.get" : syncApi ? "connectSync" : "connect", earlySend, reconfigure ? " TLS-CONFIG-SET-AFTER-FIRST-USE" : "", warmPlain ? " PLAIN-HTTP-REQUEST-TO-SAME-HOST-FIRST" : "");
   sim::notef("net sndbuf=%zu rcvbuf=%zu mss=%zu lat=%lluus shortR=%u shortW=%u ET=%d chunk=%zu", nc.sndbuf, nc.rcvbuf, nc.mss, (unsigned long long)nc.latency_ns / 1000, nc.short_read_permille,
              nc.short_write_permille, tc.useEdgeTriggered, tc.ioReadChunk);
 
@@ -317,10 +318,34 @@ extern "C" void harness_run()
       peerThr = std::thread([&]
       {
         sim::name_thread("peer-server");
-        int fd = peer::accept_one(plfd, 12000000000ull);
+        int warmFd = -1;
+        if (warmPlain && reqTls && !configRefused)
+        {
+          // answer the plain request and KEEP the connection open: whatever arrives on it later is on the tap
+          warmFd = peer::accept_one(plfd, 12000000000ull);
+          if (warmFd >= 0)
+          {
+            std::string rq;
+            for (int i = 0; i < 50 && rq.find("\r\n\r\n") == std::string::npos; i++) if (peer::read_some(warmFd, rq, 4096, 100000000ull) <= 0 && rq.empty()) break;
+            peer::write_all(warmFd, "HTTP/1.1 200 OK\r\nContent-Length: 4\r\nConnection: keep-alive\r\n\r\nwarm");
+          }
+        }
+        int fd = peer::accept_one(plfd, warmFd >= 0 ? 5000000000ull : 12000000000ull);
         if (fd >= 0) { peer::set_rcvtimeo(fd, 4000000000ull); peer::set_sndtimeo(fd, 4000000000ull); }
         if (fd >= 0) run_peer(fd, true);
+        if (warmFd >= 0)
+        {
+          // a client that reuses the plain connection for the https request gets a plain answer there
+          std::string more;
+          for (int i = 0; i < 10; i++) { int rr = peer::read_some(warmFd, more, 4096, 100000000ull); if (rr == 0 || rr == -1 || more.find("\r\n\r\n") != std::string::npos) break; }
+          if (more.find("\r\n\r\n") != std::string::npos) peer::write_all(warmFd, httpResp);
+          ::close(warmFd);
+        }
       });
+      if (!configRefused && warmPlain && reqTls)
+      {
+        try { (void)client.get("http://" + target + ":6000/warm"); sim::count("c07.plain_request_before_https", 1); } catch (const std::exception&) {}
+      }
       if (!configRefused)
       try
       {
@@ -466,7 +491,7 @@ extern "C" void harness_run()
     if (wire.find(ioraMark.substr(0, 16)) != std::string::npos)
       sim::fail("c07-cleartext", "application bytes of a session requested with TLS appeared in clear on the wire (%s; tls config enabled=%d mode=%s; peer %s)", ioraClient ? "iora client" : "iora server",
                 enabled, modeSet ? "set" : "None", pkname[peerKind]);
-    if (!wire.empty() && ioraClient && (unsigned char)wire[0] != 0x16)
+    if (!wire.empty() && ioraClient && !warmPlain && (unsigned char)wire[0] != 0x16)
       sim::fail("c07-cleartext", "first byte sent on a connection requested with TLS is 0x%02x, not a TLS handshake record", (unsigned char)wire[0]);
     if (admitted && !peerIsTls)
       sim::fail("c07-not-tls-peer", "a session requested with TLS was announced%s although the peer (%s) never spoke TLS", o.delivered.empty() ? "" : " and delivered data", pkname[peerKind]);
